@@ -94,6 +94,13 @@ def gen_C02(tier, rng):
                     for d in ("0", "1", "-"): c.q("eval %d %s %s" % (r, d, val_tokens(v)))
         dist["literal_constructors"] += 1
         cases.append(c.done(c.id, True))
+    # evaluation of objects that are the result of operation sequences
+    def ap02(c, kinds, names):
+        for i_ in range(len(kinds)):
+            for _ in range(3):
+                v = [(x, rng.random() < 0.5) for x in names + ["zz", "0p", "cq"] if rng.random() < 0.6]
+                for d in ("0", "1", "-"): c.q("eval %d %s %s" % (i_, d, val_tokens(v)))
+    hc = derived_cases("c02", tier, rng, 120, ap02); cases.extend(hc); dist["derived_objects"] += len(hc)
     # wide functions (7-10 inputs): row-index arithmetic beyond one word of rows, many unassigned inputs at once
     for nv in ([7, 8, 9, 10] if tier == "quick" else [7, 8, 9, 10, 11, 12]):
         for rep in range(3 if tier == "quick" else 10):
@@ -142,8 +149,14 @@ def gen_C05(tier, rng):
                 c.q("obs %d" % k)
         dist["random"] += 1
         cases.append(c.done(pe(e), True))
+    def ap05(c, kinds, names):
+        for i_ in range(len(kinds)):
+            for _ in range(2):
+                v = [(x, rng.random() < 0.5) for x in names + ["zz", "0p", "cq"] if rng.random() < 0.4]
+                k = c.r("restrict %d %s" % (i_, val_tokens(v))); c.q("obs %d" % k)
+    hc = derived_cases("c05", tier, rng, 120, ap05); cases.extend(hc); dist["derived_objects"] += len(hc)
     return {"cases": cases, "exhaustive": True, "dist": dict(dist),
-            "rule": "every truth function of <= 3 variables (as DNF, CNF and Shannon-with-constants expressions; quick: DNF only for 3 variables) in the three representations, restricted by every partial assignment of its inputs plus a foreign name (3^(n+1), the empty one included); random 4-7 input trees with random assignments; non-trivial = some assignment fixes an input and leaves another; distinct = (function, shape)"}
+            "rule": "every truth function of <= 3 variables (as DNF, CNF and Shannon-with-constants expressions; quick: DNF only for 3 variables) in the three representations, restricted by every partial assignment of its inputs plus a foreign name (3^(n+1), the empty one included); random 4-7 input trees with random assignments; objects produced by random programs of operations, restricted again; non-trivial = some assignment fixes an input and leaves another; distinct = (function, shape)"}
 
 
 GENERATORS = {"C02": gen_C02, "C05": gen_C05}
@@ -344,8 +357,21 @@ def gen_C03(tier, rng):
                 c.q("obs %d" % r)
         dist["random_large"] += 1
         cases.append(c.done(pe(f) + "|" + pe(g), True))
+    # operands that are the result of operation sequences: every connective and call form between registers of one kind
+    def ap03(c, kinds, names):
+        byk = collections.defaultdict(list)
+        for i_, kk in enumerate(kinds): byk[kk].append(i_)
+        for kk, regs_ in byk.items():
+            pairs_ = [(x, y) for x in regs_ for y in regs_]
+            rng.shuffle(pairs_)
+            for x, y in pairs_[:5]:
+                op = rng.choice(OPS2)
+                r = c.r("op2 %s %s %d %d" % (op, rng.choice(FORMS) if op in ("and", "or", "xor") else "val", x, y)); c.q("obs %d" % r)
+            for x in regs_[-2:]:
+                r = c.r("op1 not %d" % x); c.q("obs %d" % r)
+    hc = derived_cases("c03", tier, rng, 120, ap03); cases.extend(hc); dist["derived_objects"] += len(hc)
     return {"cases": cases, "exhaustive": True, "dist": dict(dist),
-            "rule": "every ordered pair of truth functions of <= 2 variables under every alignment of their variable sets inside a %d-name universe, x {and, or, xor, imply, iff} (+ not) x three representations, every call form the representation has (by value; by reference for tables and diagrams; in place for diagrams); sampled 3-variable pairs and random 5-8 input operands; non-trivial = the input sets differ and neither contains the other; distinct = aligned pair" % len(universe)}
+            "rule": "every ordered pair of truth functions of <= 2 variables under every alignment of their variable sets inside a %d-name universe, x {and, or, xor, imply, iff} (+ not) x three representations, every call form the representation has (by value; by reference for tables and diagrams; in place for diagrams); sampled 3-variable pairs and random 5-8 input operands; operands produced by random programs of operations; non-trivial = the input sets differ and neither contains the other; distinct = aligned pair" % len(universe)}
 
 
 def identity_histories(c, reg, kind, which):
@@ -481,6 +507,14 @@ def gen_quant(prefix, ops, tier, rng):
                     k = c.r("%s %d %s" % (op, r, set_tokens(sorted(V)))); c.q("obs %d" % k)
         dist["random"] += 1
         cases.append(c.done(pe(e), True))
+    # objects that are the result of operation sequences, quantified / differentiated again (tables and diagrams)
+    def apq(c, kinds, names):
+        for i_, kk in enumerate(kinds):
+            if kk == "E": continue
+            V = sorted(rng.sample(names + ["zz", "0p"], rng.randint(1, 2)))
+            for op in ops:
+                k = c.r("%s %d %s" % (op, i_, set_tokens(V))); c.q("obs %d" % k)
+    hc = derived_cases(prefix, tier, rng, 100, apq); cases.extend(hc); dist["derived_objects"] += len(hc)
     # wide functions (7-9 inputs): the restricted halves have 64 rows and more
     for nv in ([7, 8, 9] if tier == "quick" else [7, 8, 9, 10, 11]):
         for rep in range(2 if tier == "quick" else 6):
@@ -830,6 +864,19 @@ def random_program(rng, c, length, names, allow_tb=True):
         if kinds[last] != "E": c.q("fresh %d" % last)
         if rng.random() < 0.25: c.q("enum %d" % last)
     return kinds
+
+
+def derived_cases(prefix, tier, rng, nquick, apply, names_max=5):
+    """cases whose objects are the RESULT of operation sequences (random programs as in C15); `apply(c, kinds, names)`
+    then adds the property's own operation / observation on the registers"""
+    out = []
+    for k_ in range(nquick if tier == "quick" else nquick * 12):
+        c = Case("%s_h%d" % (prefix, k_))
+        names = gen.NAMES[: rng.randint(3, names_max)]
+        kinds = random_program(rng, c, rng.randint(5, 12), names, allow_tb=False)
+        apply(c, kinds, names)
+        out.append(c.done("hist%d" % k_, True))
+    return out
 
 
 def gen_C15(tier, rng):
